@@ -102,7 +102,7 @@ func nontrivial(p *lp.Program) (bool, []string) {
 func norm(p *lp.Program) {
 	p.Set.ErrMarshal = ""
 	if p.Set.StackMarshal != "" && p.Set.StackMarshal != "string" {
-		p.Set.StackMarshal = ""
+		p.Set.StackMarshal = "string" // the stack flag of a logger is part of what derivations copy: keep it observable
 	}
 	p.Set.FloatPrec = -1
 }
